@@ -196,17 +196,17 @@ Proof.
   destruct (exit_toolbox truthy is_none known m') as [l' ok2].
   injection H as <- <- Hok. apply andb_true_iff in Hok. destruct Hok as [-> _].
   assert (Hub : uniq (ns_bucket ns config)).
-  { unfold ns_bucket. clear. generalize (@nil (M_dispatch.str * M_dispatch.str)) at 2 as acc.
+  { unfold ns_bucket. clear.
     assert (G : forall acc, uniq acc -> uniq (fold_left
        (fun b kv => match split_dot (fst kv) with
                     | Some (n, name) => if eqbZs n ns then conf_set name (snd kv) b else b
                     | None => b
                     end) config acc)).
     { induction config as [|kv r IH]; intros acc Ha; [exact Ha|]. cbn [fold_left]. apply IH.
-      destruct (split_dot (fst kv)) as [[n nm]|]; [|exact Ha].
+      destruct (split_dot _) as [[n nm]|]; [|exact Ha].
       destruct (eqbZs n ns); [now apply uniq_conf_set | exact Ha]. }
-    intros acc. apply G. }
-  rewrite (thm_toolmap t a Ht _ _ _ Ep) by (apply Hub; constructor).
+    apply G. constructor. }
+  rewrite (thm_toolmap t a Ht _ _ _ Ep) by exact Hub.
   rewrite thm_bucket by assumption.
   destruct (assoc _ config); reflexivity.
 Qed.
